@@ -449,3 +449,300 @@ Example C08_ts_server_raw_behaviour :
   end = Ok (inl (Some ([(s "id", FS (VStr (s "a"))); (s "mode", FS (VStr (s "x")))], (BJson, [])))) /\
   ts_server_handle sc1 fl1 sv1 (tw GET (s "/api/items/%zz") [] None) [] = Ok TsServerError.
 Proof. vm_compute. repeat split; reflexivity. Qed.
+
+(* ---- E. GET / DELETE routes into the TS server (path variables + query parameters) ------------------------- *)
+(* Lemmas: proofs/TsRtBodiless.v.  The TS server reads a query parameter with Number(q ?? "0") (32-bit kinds),
+   q === "true" (bool), q ?? "" (string and String()-typed 64-bit kinds) and a path variable with
+   decodeURIComponent; both clients leave a query field holding its zero value off the URL.
+   [wf_nobody] (GoRtFacts, the side conditions of C01_bodiless_verbs): the verb has no body, method names and
+   field names are distinct, every path value prints to a non-empty string, URL-capable fields hold values of
+   their declared type, every input field is a path variable or a query parameter.
+   [path_vals_utf8]: the path values are UTF-8 (decodeURIComponent throws on other byte strings).
+   [ts_saw_req fs req saw]: for every input field f, saw lists f's value in req — nothing when it is the zero
+   value — under f's name, and saw has no other key.
+   The defect list excludes, besides the classes of the body verbs: a path variable of a kind other than string /
+   64-bit (C08PathParamString), a 64-bit query field holding zero (C08Int64QueryAbsent), two query fields
+   sharing a parameter name (C08DuplicateQueryName). *)
+From SebufProofs Require TsRtBodiless.
+
+Theorem C08_ts_ts_bodiless : forall sc fl sv md req hs resp w o,
+  ts_ts_call sc fl sv md hs req resp = Ok (w, o) ->
+  defects_C08 TsTs sc fl sv md req = [] ->
+  In md (sv_methods sv) ->
+  wf_nobody sc fl sv md req = true ->
+  TsRtBodiless.path_vals_utf8 (in_fields sc md) req (path_vars (info_of fl sv md (in_fields sc md))) = true ->
+  template_ok (info_of fl sv md (in_fields sc md)) = true ->
+  ts_template_ok (info_of fl sv md (in_fields sc md)) = true ->
+  hdr_violation (sv_headers sv ++ md_headers md) hs = Ok None ->
+  exists saw, o = ODelivered (md_name md) saw resp /\ TsRtBodiless.ts_saw_req (in_fields sc md) req saw.
+Proof. exact TsRtBodiless.ts_ts_nobody. Qed.
+Print Assumptions C08_ts_ts_bodiless.
+
+Theorem C08_go_ts_bodiless : forall sc fl sv md req hs resp w o,
+  go_ts_call sc fl sv md hs req resp = Ok (w, o) ->
+  defects_C08 GoTs sc fl sv md req = [] ->
+  In md (sv_methods sv) ->
+  wf_nobody sc fl sv md req = true ->
+  TsRtBodiless.path_vals_utf8 (in_fields sc md) req (path_vars (info_of fl sv md (in_fields sc md))) = true ->
+  template_ok (info_of fl sv md (in_fields sc md)) = true ->
+  ts_template_ok (info_of fl sv md (in_fields sc md)) = true ->
+  hdr_violation (sv_headers sv ++ md_headers md) hs = Ok None ->
+  exists saw, o = ODelivered (md_name md) saw resp /\ TsRtBodiless.ts_saw_req (in_fields sc md) req saw.
+Proof. exact TsRtBodiless.go_ts_nobody. Qed.
+Print Assumptions C08_go_ts_bodiless.
+
+(* for a canonical request value (populated fields only, the values the harness and protobuf-es produce) the
+   handler object is the request, key for key — the conclusion of C08_ts_ts_partial / C08_go_ts_partial *)
+Theorem C08_ts_ts_bodiless_exact : forall sc fl sv md req hs resp w o,
+  ts_ts_call sc fl sv md hs req resp = Ok (w, o) ->
+  defects_C08 TsTs sc fl sv md req = [] ->
+  In md (sv_methods sv) ->
+  wf_nobody sc fl sv md req = true ->
+  TsRtBodiless.path_vals_utf8 (in_fields sc md) req (path_vars (info_of fl sv md (in_fields sc md))) = true ->
+  template_ok (info_of fl sv md (in_fields sc md)) = true ->
+  ts_template_ok (info_of fl sv md (in_fields sc md)) = true ->
+  hdr_violation (sv_headers sv ++ md_headers md) hs = Ok None ->
+  canonicalb (in_fields sc md) req = true ->
+  exists saw, o = ODelivered (md_name md) saw resp /\ forall k, tget saw k = tget (tsobj_of_mval req) k.
+Proof. exact TsRtBodiless.ts_ts_nobody_exact. Qed.
+Print Assumptions C08_ts_ts_bodiless_exact.
+
+Theorem C08_go_ts_bodiless_exact : forall sc fl sv md req hs resp w o,
+  go_ts_call sc fl sv md hs req resp = Ok (w, o) ->
+  defects_C08 GoTs sc fl sv md req = [] ->
+  In md (sv_methods sv) ->
+  wf_nobody sc fl sv md req = true ->
+  TsRtBodiless.path_vals_utf8 (in_fields sc md) req (path_vars (info_of fl sv md (in_fields sc md))) = true ->
+  template_ok (info_of fl sv md (in_fields sc md)) = true ->
+  ts_template_ok (info_of fl sv md (in_fields sc md)) = true ->
+  hdr_violation (sv_headers sv ++ md_headers md) hs = Ok None ->
+  canonicalb (in_fields sc md) req = true ->
+  exists saw, o = ODelivered (md_name md) saw resp /\ forall k, tget saw k = tget (tsobj_of_mval req) k.
+Proof. exact TsRtBodiless.go_ts_nobody_exact. Qed.
+Print Assumptions C08_go_ts_bodiless_exact.
+
+(* the TS server alone on a bodiless route: a request made of the route's own template (each variable escaped
+   by a function decodeURIComponent inverts) whose query string reads back, per query field, as nothing for the
+   zero value and the printed value otherwise, reaches the route's handler with exactly the URL-bound fields *)
+Theorem C08_ts_server_bodiless : forall sc fl sv md req hs (E : str -> str),
+  (forall x, E x = [] -> x = []) ->
+  (forall x, utf8_valid x = true -> decode_uri_component (E x) = Some x) ->
+  (forall x, ~ In slash (E x)) ->
+  forall tw segs,
+  In md (sv_methods sv) -> NoDup (map md_name (sv_methods sv)) ->
+  tsegs (client_path (info_of fl sv md (in_fields sc md))) = Some segs ->
+  seg_vars segs = path_vars (info_of fl sv md (in_fields sc md)) ->
+  (forall x, In (SLit x) segs -> ~ In slash x) ->
+  verb_has_body (eff_verb (info_of fl sv md (in_fields sc md))) = false ->
+  tw_verb tw = eff_verb (info_of fl sv md (in_fields sc md)) ->
+  tw_path tw = slash :: join_with [slash] (map (efill (in_fields sc md) req E) segs) ->
+  NoDup (map f_name (in_fields sc md)) ->
+  (forall v, In v (path_vars (info_of fl sv md (in_fields sc md))) -> TsRtBodiless.path_var_ok sc md req v) ->
+  (forall f, In f (query_fields (in_fields sc md)) -> TsRtBodiless.query_par_ok req (form_parse (tw_query tw)) f) ->
+  hdr_violation (sv_headers sv ++ md_headers md) hs = Ok None ->
+  (forall n, ts_dispatched sc fl sv tw = Some n -> n = md_name md) ->
+  forall o, ts_server_handle sc fl sv tw hs = Ok o ->
+  exists saw, o = TsDelivered (md_name md) saw /\
+    forall k, tget saw k =
+      if existsb (str_eqb k) (path_vars (info_of fl sv md (in_fields sc md)) ++ map f_name (query_fields (in_fields sc md)))
+      then TsRtBodiless.expect_key (in_fields sc md) req k else None.
+Proof. exact TsRtBodiless.ts_server_nobody. Qed.
+Print Assumptions C08_ts_server_bodiless.
+
+(* the JS conversions the query binding relies on *)
+Theorem C08_number_of_decimal : forall z, (- 2 ^ 53 <= z <= 2 ^ 53)%Z -> z <> 0%Z -> js_number (show_int z) = NumInt z.
+Proof. exact TsRtBodiless.js_number_show_int. Qed.
+Print Assumptions C08_number_of_decimal.
+
+Theorem C08_query_value_read_back : forall f q v,
+  url_kind_ok (f_kind f) = true -> TsRtBodiless.not_number_enc f = true ->
+  typed_scalar (f_kind f) v -> is_64 (f_kind f) && is_zero v = false ->
+  params_get q (qname f) = (if is_zero v then None else Some (sprint v)) ->
+  exists j, ts_query_js f q = Ok j /\
+            canon_js (f_kind f) j = if is_zero v then None else Some (TsV (FS v)).
+Proof. exact TsRtBodiless.canon_query_value. Qed.
+Print Assumptions C08_query_value_read_back.
+
+Theorem C08_path_value_read_back : forall k v, is_str_or_64 k = true -> typed_scalar k v -> sprint v <> [] ->
+  canon_js k (JsStr (sprint v)) = if is_zero v then None else Some (TsV (FS v)).
+Proof. exact TsRtBodiless.canon_path_value. Qed.
+Print Assumptions C08_path_value_read_back.
+
+(* --- non-vacuity: GET /api/t/{tenant}/items?q=..&page-size=.. ; values that need escaping (space, '/', '%', '?',
+       '&', '=', '+', '#', two-byte UTF-8 sequences), a negative number --- *)
+Definition list_md := mkmd (s "ListItems") (s "ListReq") (s "/t/{tenant}/items") 1.
+Definition list_msg := mkmsg (s "ListReq")
+  [mkf (s "tenant") 1 KString None; mkf (s "q") 2 KString (qc (s "q") false);
+   mkf (s "limit") 3 KInt32 (qc (s "page-size") false)].
+Definition sv_list := mksv (s "/api") [list_md; put_md].
+Definition fl_list := mkfl [list_msg; put_msg; mkmsg (s "Resp") []] sv_list.
+Definition u_uml : str := [ch 195; ch 188].      (* U+00FC *)
+Definition e_acute : str := [ch 195; ch 169].    (* U+00E9 *)
+Definition list_req : mval :=
+  [(s "tenant", FS (VStr (s "a b/" ++ u_uml ++ s "%?"))); (s "q", FS (VStr (s "x y&z=1+" ++ e_acute ++ s "#")));
+   (s "limit", FS (VInt (-7)))].
+Definition list_saw : tsobj :=
+  [(s "q", TsV (FS (VStr (s "x y&z=1+" ++ e_acute ++ s "#")))); (s "limit", TsV (FS (VInt (-7))));
+   (s "tenant", TsV (FS (VStr (s "a b/" ++ u_uml ++ s "%?"))))].
+
+Definition wire_of (x : result (wire_req * c08_outcome)) : option wire_req :=
+  match x with Ok (w, _) => Some w | Unmodelled _ => None end.
+
+Example C08_bodiless_nonvacuous :
+  (* the hypotheses of C08_ts_ts_bodiless(_exact) and C08_go_ts_bodiless(_exact) *)
+  defects_C08 TsTs [fl_list] fl_list sv_list list_md list_req = [] /\
+  defects_C08 GoTs [fl_list] fl_list sv_list list_md list_req = [] /\
+  In list_md (sv_methods sv_list) /\
+  wf_nobody [fl_list] fl_list sv_list list_md list_req = true /\
+  TsRtBodiless.path_vals_utf8 (in_fields [fl_list] list_md) list_req
+    (path_vars (info_of fl_list sv_list list_md (in_fields [fl_list] list_md))) = true /\
+  template_ok (info_of fl_list sv_list list_md (in_fields [fl_list] list_md)) = true /\
+  ts_template_ok (info_of fl_list sv_list list_md (in_fields [fl_list] list_md)) = true /\
+  hdr_violation (sv_headers sv_list ++ md_headers list_md) [] = Ok None /\
+  canonicalb (in_fields [fl_list] list_md) list_req = true /\
+  path_vars (info_of fl_list sv_list list_md (in_fields [fl_list] list_md)) = [s "tenant"] /\
+  map qname (query_fields (in_fields [fl_list] list_md)) = [s "q"; s "page-size"] /\
+  (* ... and what happens *)
+  outcome_of (ts_ts_call [fl_list] fl_list sv_list list_md [] list_req resp1)
+    = Some (ODelivered (s "ListItems") list_saw resp1) /\
+  outcome_of (go_ts_call [fl_list] fl_list sv_list list_md [] list_req resp1)
+    = Some (ODelivered (s "ListItems") list_saw resp1) /\
+  option_map w_path (wire_of (ts_ts_call [fl_list] fl_list sv_list list_md [] list_req resp1))
+    = Some (s "/api/t/a%20b%2F%C3%BC%25%3F/items") /\
+  option_map w_path (wire_of (go_ts_call [fl_list] fl_list sv_list list_md [] list_req resp1))
+    = Some (s "/api/t/a%20b%2F%C3%BC%25%3F/items") /\
+  (* the query string as URLSearchParams and as url.Values.Encode write it *)
+  match ts_client_build fl_list sv_list list_md (in_fields [fl_list] list_md) list_req with
+  | Ok tw => tw_query tw | Unmodelled _ => [] end = s "q=x+y%26z%3D1%2B%C3%A9%23&page-size=-7" /\
+  option_map (fun w => encode_query (w_query w)) (wire_of (go_ts_call [fl_list] fl_list sv_list list_md [] list_req resp1))
+    = Some (s "page-size=-7&q=x+y%26z%3D1%2B%C3%A9%23").
+Proof. repeat match goal with |- _ /\ _ => split end; first [vm_compute; reflexivity | left; reflexivity]. Qed.
+
+(* the theorems applied to it *)
+Example C08_bodiless_nonvacuous_applied : forall w o,
+  ts_ts_call [fl_list] fl_list sv_list list_md [] list_req resp1 = Ok (w, o) ->
+  exists saw, o = ODelivered (s "ListItems") saw resp1 /\ forall k, tget saw k = tget (tsobj_of_mval list_req) k.
+Proof.
+  intros w o H.
+  apply (C08_ts_ts_bodiless_exact [fl_list] fl_list sv_list list_md list_req [] resp1 w o H);
+    first [vm_compute; reflexivity | left; reflexivity].
+Qed.
+
+(* every URL-capable kind as a query parameter: bool, the six 32-bit kinds, the five 64-bit kinds (above 2^53 and
+   at both ends of their range), a zero-valued int32 / bool / string left off the URL and re-created as absent *)
+Definition kinds_md := mkmd (s "Kinds") (s "KindsReq") (s "/k/{id}") 4.
+Definition kq (n : str) (num : Z) (k : kind) : field := mkf n num k (qc n false).
+Definition kinds_msg := mkmsg (s "KindsReq")
+  [mkf (s "id") 1 KUint64 None; kq (s "b") 2 KBool; kq (s "i32") 3 KInt32; kq (s "s32") 4 KSint32;
+   kq (s "sf32") 5 KSfixed32; kq (s "u32") 6 KUint32; kq (s "f32") 7 KFixed32; kq (s "i64") 8 KInt64;
+   kq (s "s64") 9 KSint64; kq (s "sf64") 10 KSfixed64; kq (s "u64") 11 KUint64; kq (s "f64") 12 KFixed64;
+   kq (s "zi") 13 KInt32; kq (s "zb") 14 KBool; kq (s "zs") 15 KString].
+Definition sv_kinds := mksv (s "/api") [kinds_md].
+Definition fl_kinds := mkfl [kinds_msg; mkmsg (s "Resp") []] sv_kinds.
+Definition kinds_req : mval :=
+  [(s "id", FS (VInt 18446744073709551615)); (s "b", FS (VBool true)); (s "i32", FS (VInt (-2147483648)));
+   (s "s32", FS (VInt 2147483647)); (s "sf32", FS (VInt (-1))); (s "u32", FS (VInt 4294967295));
+   (s "f32", FS (VInt 1)); (s "i64", FS (VInt (-9223372036854775808))); (s "s64", FS (VInt 9223372036854775807));
+   (s "sf64", FS (VInt 9007199254740993)); (s "u64", FS (VInt 18446744073709551615)); (s "f64", FS (VInt 7))].
+Example C08_bodiless_all_kinds :
+  defects_C08 TsTs [fl_kinds] fl_kinds sv_kinds kinds_md kinds_req = [] /\
+  defects_C08 GoTs [fl_kinds] fl_kinds sv_kinds kinds_md kinds_req = [] /\
+  wf_nobody [fl_kinds] fl_kinds sv_kinds kinds_md kinds_req = true /\
+  TsRtBodiless.path_vals_utf8 (in_fields [fl_kinds] kinds_md) kinds_req
+    (path_vars (info_of fl_kinds sv_kinds kinds_md (in_fields [fl_kinds] kinds_md))) = true /\
+  template_ok (info_of fl_kinds sv_kinds kinds_md (in_fields [fl_kinds] kinds_md)) = true /\
+  ts_template_ok (info_of fl_kinds sv_kinds kinds_md (in_fields [fl_kinds] kinds_md)) = true /\
+  canonicalb (in_fields [fl_kinds] kinds_md) kinds_req = true /\
+  option_map w_verb (wire_of (ts_ts_call [fl_kinds] fl_kinds sv_kinds kinds_md [] kinds_req resp1)) = Some DELETE /\
+  match outcome_of (ts_ts_call [fl_kinds] fl_kinds sv_kinds kinds_md [] kinds_req resp1) with
+  | Some (ODelivered n saw _) => (n, List.length saw) | _ => ([], O) end = (s "Kinds", 12%nat) /\
+  outcome_of (go_ts_call [fl_kinds] fl_kinds sv_kinds kinds_md [] kinds_req resp1)
+    = outcome_of (ts_ts_call [fl_kinds] fl_kinds sv_kinds kinds_md [] kinds_req resp1).
+Proof. repeat match goal with |- _ /\ _ => split end; first [vm_compute; reflexivity | left; reflexivity]. Qed.
+
+Example C08_bodiless_all_kinds_applied :
+  (forall w o, ts_ts_call [fl_kinds] fl_kinds sv_kinds kinds_md [] kinds_req resp1 = Ok (w, o) ->
+     exists saw, o = ODelivered (s "Kinds") saw resp1 /\ forall k, tget saw k = tget (tsobj_of_mval kinds_req) k) /\
+  (forall w o, go_ts_call [fl_kinds] fl_kinds sv_kinds kinds_md [] kinds_req resp1 = Ok (w, o) ->
+     exists saw, o = ODelivered (s "Kinds") saw resp1 /\ forall k, tget saw k = tget (tsobj_of_mval kinds_req) k).
+Proof.
+  split; intros w o H.
+  - apply (C08_ts_ts_bodiless_exact [fl_kinds] fl_kinds sv_kinds kinds_md kinds_req [] resp1 w o H);
+      first [vm_compute; reflexivity | left; reflexivity].
+  - apply (C08_go_ts_bodiless_exact [fl_kinds] fl_kinds sv_kinds kinds_md kinds_req [] resp1 w o H);
+      first [vm_compute; reflexivity | left; reflexivity].
+Qed.
+
+(* --- the side conditions are needed --- *)
+
+(* [wf_nobody], typed values: an int32 query field holding 2^40 (a TS `number` can) arrives as a raw number the
+   canonical reading refuses; every other hypothesis holds *)
+Definition list_req_big : mval :=
+  [(s "tenant", FS (VStr (s "acme"))); (s "q", FS (VStr (s "x"))); (s "limit", FS (VInt 1099511627776))].
+Example C08_bodiless_needs_typed :
+  defects_C08 TsTs [fl_list] fl_list sv_list list_md list_req_big = [] /\
+  req_typedb (in_fields [fl_list] list_md) list_req_big = false /\
+  wf_nobody [fl_list] fl_list sv_list list_md list_req = true /\            (* same schema, typed value: holds *)
+  TsRtBodiless.path_vals_utf8 (in_fields [fl_list] list_md) list_req_big [s "tenant"] = true /\
+  outcome_of (ts_ts_call [fl_list] fl_list sv_list list_md [] list_req_big resp1)
+    = Some (ODelivered (s "ListItems")
+        [(s "q", TsV (FS (VStr (s "x")))); (s "limit", TsRaw (JNum 1099511627776)); (s "tenant", TsV (FS (VStr (s "acme"))))] resp1) /\
+  outcome_of (go_ts_call [fl_list] fl_list sv_list list_md [] list_req_big resp1)
+    = outcome_of (ts_ts_call [fl_list] fl_list sv_list list_md [] list_req_big resp1).
+Proof. repeat match goal with |- _ /\ _ => split end; first [vm_compute; reflexivity | left; reflexivity]. Qed.
+
+(* [wf_nobody], cover: an input field that is neither a path variable nor a query parameter is not sent on a
+   GET; the handler does not see it (as for the Go server, C01) *)
+Definition cov_md := mkmd (s "Cov") (s "CovReq") (s "/c/{id}") 1.
+Definition cov_msg := mkmsg (s "CovReq")
+  [mkf (s "id") 1 KString None; mkf (s "q") 2 KString (qc (s "q") false); mkf (s "note") 3 KString None].
+Definition sv_cov := mksv (s "/api") [cov_md].
+Definition fl_cov := mkfl [cov_msg; mkmsg (s "Resp") []] sv_cov.
+Definition cov_req : mval := [(s "id", FS (VStr (s "a"))); (s "q", FS (VStr (s "x"))); (s "note", FS (VStr (s "lost")))].
+Example C08_bodiless_needs_cover :
+  defects_C08 TsTs [fl_cov] fl_cov sv_cov cov_md cov_req = [] /\
+  defects_C08 GoTs [fl_cov] fl_cov sv_cov cov_md cov_req = [] /\
+  coverb (in_fields [fl_cov] cov_md) [s "id"] = false /\
+  req_typedb (in_fields [fl_cov] cov_md) cov_req = true /\ canonicalb (in_fields [fl_cov] cov_md) cov_req = true /\
+  outcome_of (ts_ts_call [fl_cov] fl_cov sv_cov cov_md [] cov_req resp1)
+    = Some (ODelivered (s "Cov") [(s "q", TsV (FS (VStr (s "x")))); (s "id", TsV (FS (VStr (s "a"))))] resp1) /\
+  outcome_of (go_ts_call [fl_cov] fl_cov sv_cov cov_md [] cov_req resp1)
+    = outcome_of (ts_ts_call [fl_cov] fl_cov sv_cov cov_md [] cov_req resp1).
+Proof. repeat match goal with |- _ /\ _ => split end; first [vm_compute; reflexivity | left; reflexivity]. Qed.
+
+(* [path_vals_utf8]: a Go string that is not UTF-8 travels as %FF; decodeURIComponent throws, the TS server
+   answers 500 (the Go server delivers the bytes) *)
+Definition list_req_ff : mval :=
+  [(s "tenant", FS (VStr [ch 255])); (s "q", FS (VStr (s "x"))); (s "limit", FS (VInt 1))].
+Example C08_bodiless_needs_utf8 :
+  defects_C08 GoTs [fl_list] fl_list sv_list list_md list_req_ff = [] /\
+  wf_nobody [fl_list] fl_list sv_list list_md list_req_ff = true /\
+  canonicalb (in_fields [fl_list] list_md) list_req_ff = true /\
+  TsRtBodiless.path_vals_utf8 (in_fields [fl_list] list_md) list_req_ff [s "tenant"] = false /\
+  outcome_of (go_ts_call [fl_list] fl_list sv_list list_md [] list_req_ff resp1) = Some OServerError /\
+  option_map w_path (wire_of (go_ts_call [fl_list] fl_list sv_list list_md [] list_req_ff resp1)) = Some (s "/api/t/%FF/items") /\
+  match go_call [fl_list] fl_list sv_list list_md CtJSON list_req_ff resp1 with
+  | Ok (_, o) => Some o | Unmodelled _ => None end = Some (Delivered list_req_ff resp1).
+Proof. repeat match goal with |- _ /\ _ => split end; first [vm_compute; reflexivity | left; reflexivity]. Qed.
+
+(* [wf_nobody], non-empty path values: an empty path value leaves an empty segment no template accepts *)
+Definition list_req_empty : mval := [(s "q", FS (VStr (s "x"))); (s "limit", FS (VInt 1))].
+Example C08_bodiless_needs_path_value :
+  defects_C08 TsTs [fl_list] fl_list sv_list list_md list_req_empty = [] /\
+  path_vals_nonempty (in_fields [fl_list] list_md) list_req_empty [s "tenant"] = false /\
+  outcome_of (ts_ts_call [fl_list] fl_list sv_list list_md [] list_req_empty resp1) = Some ONotRouted /\
+  outcome_of (go_ts_call [fl_list] fl_list sv_list list_md [] list_req_empty resp1) = Some ONotRouted.
+Proof. repeat match goal with |- _ /\ _ => split end; first [vm_compute; reflexivity | left; reflexivity]. Qed.
+
+(* the two documented defect classes the defect list excludes are C08_refuted_path_param_string and
+   C08_refuted_int64_query_absent above; a zero 64-bit PATH value is carried faithfully ("0" is sent) *)
+Definition kinds_req0 : mval := [(s "b", FS (VBool true)); (s "i64", FS (VInt 1)); (s "s64", FS (VInt 1));
+   (s "sf64", FS (VInt 1)); (s "u64", FS (VInt 1)); (s "f64", FS (VInt 1))].
+Example C08_bodiless_zero_path_int64 :
+  defects_C08 GoTs [fl_kinds] fl_kinds sv_kinds kinds_md kinds_req0 = [] /\
+  wf_nobody [fl_kinds] fl_kinds sv_kinds kinds_md kinds_req0 = true /\
+  option_map w_path (wire_of (go_ts_call [fl_kinds] fl_kinds sv_kinds kinds_md [] kinds_req0 resp1)) = Some (s "/api/k/0") /\
+  match outcome_of (go_ts_call [fl_kinds] fl_kinds sv_kinds kinds_md [] kinds_req0 resp1) with
+  | Some (ODelivered _ saw _) => (tget saw (s "id"), tget saw (s "i64")) | _ => (None, None) end
+    = (None, Some (TsV (FS (VInt 1)))).
+Proof. repeat match goal with |- _ /\ _ => split end; first [vm_compute; reflexivity | left; reflexivity]. Qed.
